@@ -15,6 +15,11 @@ def gen_cases(rng, tier):
     for n in range(0, nmax + 1):
         for k in range(0, n + 1):
             cases.append({'kind': 'tables', 'n': n, 'k': k})
+    for n in range(2, (5 if tier == 'quick' else 7) + 1):
+        for ka in range(0, n + 1):
+            for kb in range(0, n + 1):
+                if ka != kb and (tier != 'quick' or (ka + kb + n) % 2 == 0 or n <= 3):
+                    cases.append({'kind': 'derived', 'n': n, 'ka': ka, 'kb': kb})
     amax = 5 if tier == 'quick' else 7
     for n in range(1, amax + 1):
         cases.append({'kind': 'annih', 'n': n})
@@ -67,37 +72,60 @@ def _maps_to_rows(mp):
     return {('%d,%d' % k): sorted([[int(a), int(b), int(c)] for a, b, c in v]) for k, v in mp.items()}
 
 
+def _alpha_tables(g, n, k):
+    """every alpha-side table of a graph, in comparable form (also warms the lazily built ones)"""
+    import numpy
+    from fqe import fci_graph, bitstring
+    z = fci_graph._get_Z_matrix(n, k)
+    dex = g._dexca
+    rows = []
+    for t in range(dex.shape[0]):
+        rows.append(sorted([[int(a), int(b), int(c)] for a, b, c in dex[t]]))
+    strs = [int(s) for s in g.string_alpha_all()]
+    aind = {str(int(s)): int(a) for s, a in g.index_alpha_all().items()}
+    blk = []
+    for ms in (1, 3, 100):
+        out = []
+        for (ar, br, am, bm) in g._get_block_mappings(max_states=ms):
+            out.append([[ar.start, ar.stop], [[int(x) for x in r] for r in am.reshape(-1, 4)]])
+        blk.append(out)
+    res = {'strings': strs, 'aind': aind, 'z': [[int(x) for x in r] for r in z],
+           'lena': g.lena(), 'amap': _maps_to_rows(g._alpha_map), 'dexc': rows,
+           'dexc_shape': list(dex.shape), 'blocks': blk,
+           'addr': [int(g._build_string_address(k, n, list(bitstring.integer_index(s)))) for s in strs]}
+    try:
+        index, exc, diag = g._map_to_deexc_alpha_icol()
+        res['icol'] = {'index': index.tolist(), 'exc': exc.tolist(), 'diag': diag.tolist()}
+    except Exception as e:  # degenerate shapes may raise: recorded, compared
+        res['icol'] = {'exc_type': type(e).__name__}
+    return res
+
+
 def run_impl(case, mode):
     import numpy
     from fqe import fci_graph, bitstring
     kind = case['kind']
     if kind == 'tables':
         n, k = case['n'], case['k']
-        g = fci_graph.FciGraph(k, 0, n)
-        z = fci_graph._get_Z_matrix(n, k)
-        dex = g._dexca
-        rows = []
-        for t in range(dex.shape[0]):
-            rows.append(sorted([[int(a), int(b), int(c)] for a, b, c in dex[t]]))
-        strs = [int(s) for s in g.string_alpha_all()]
-        aind = {str(int(s)): int(a) for s, a in g.index_alpha_all().items()}
-        blk = []
-        for ms in (1, 3, 100):
-            out = []
-            for (ar, br, am, bm) in g._get_block_mappings(max_states=ms):
-                out.append([[ar.start, ar.stop], [[int(x) for x in r] for r in am.reshape(-1, 4)]])
-            blk.append(out)
-        res = {'strings': strs, 'aind': aind, 'z': [[int(x) for x in r] for r in z],
-               'lena': g.lena(), 'amap': _maps_to_rows(g._alpha_map), 'dexc': rows,
-               'dexc_shape': list(dex.shape), 'blocks': blk,
-               'addr': [int(g._build_string_address(k, n, list(bitstring.integer_index(s)))) for s in strs]}
-        if 0 < k < n or (k == n and n > 0) or True:
-            try:
-                index, exc, diag = g._map_to_deexc_alpha_icol()
-                res['icol'] = {'index': index.tolist(), 'exc': exc.tolist(), 'diag': diag.tolist()}
-            except Exception as e:  # degenerate shapes may raise: recorded, compared
-                res['icol'] = {'exc_type': type(e).__name__}
-        return res
+        return _alpha_tables(fci_graph.FciGraph(k, 0, n), n, k)
+    if kind == 'derived':
+        # derived graph objects: every table of g is built (and every lazily built one requested twice) before the
+        # alpha/beta exchange; the exchanged graph must have the tables of a graph built for (kb, ka), and exchanging
+        # twice must give back those of (ka, kb)
+        n, ka, kb = case['n'], case['ka'], case['kb']
+        g = fci_graph.FciGraph(ka, kb, n)
+        _alpha_tables(g, n, ka)
+        _alpha_tables(g, n, ka)
+        g2 = g.alpha_beta_transpose()
+        t2 = _alpha_tables(g2, n, kb)
+        t2['lenb'] = g2.lenb()
+        t2['bstrings'] = [int(x) for x in g2.string_beta_all()]
+        g3 = g2.alpha_beta_transpose()
+        t3 = _alpha_tables(g3, n, ka)
+        t3['lenb'] = g3.lenb()
+        t3['bstrings'] = [int(x) for x in g3.string_beta_all()]
+        t1 = _alpha_tables(g, n, ka)      # the original graph after its copies were used
+        return {'t2': t2, 't3': t3, 't1': t1}
     if kind == 'annih':
         from fqe import fci_graph_set
         n = case['n']
@@ -189,6 +217,11 @@ def expected(model, case):
                 'binom': int(model.q('BINOM', n, k)[0]),
                 'binom_icol': [int(model.q('BINOM', n - 1, k - 1)[0]) if n >= 1 and k >= 1 else 0,
                                int(model.q('BINOM', n - 1, k)[0]) if n >= 1 else 0]}
+    if kind == 'derived':
+        n, ka, kb = case['n'], case['ka'], case['kb']
+        ea = expected(model, {'kind': 'tables', 'n': n, 'k': ka})
+        eb = expected(model, {'kind': 'tables', 'n': n, 'k': kb})
+        return {'t2': eb, 't3': ea, 't1': ea}
     if kind == 'annih':
         n = case['n']
         out = {}
@@ -350,6 +383,18 @@ def compare(case, got, exp):
     if 'exc' in got or 'crash' in got:
         return ['implementation raised/crashed: %s' % (str(got)[:300])]
     kind = case['kind']
+    if kind == 'derived':
+        n, ka, kb = case['n'], case['ka'], case['kb']
+        for tag, k, ko in (('t2', kb, ka), ('t3', ka, kb), ('t1', ka, kb)):
+            sub = compare({'kind': 'tables', 'n': n, 'k': k}, got[tag], exp[tag])
+            what = {'t2': 'graph after alpha_beta_transpose', 't3': 'graph after two transpositions',
+                    't1': 'original graph after its transposed copies were used'}[tag]
+            bad += ['%s (n=%d, nalpha=%d, nbeta=%d): %s' % (what, n, k, ko, b) for b in sub[:2]]
+            if tag != 't1':
+                other = exp['t2' if tag == 't3' else 't3']['strings']
+                if got[tag]['bstrings'] != other or got[tag]['lenb'] != len(other):
+                    bad.append('%s: beta string table is not that of %d electrons' % (what, ko))
+        return bad
     if kind == 'tables':
         n, k = case['n'], case['k']
         if got['strings'] != exp['strings']:
@@ -458,6 +503,8 @@ def nontrivial(case, exp):
         return sum(len(v) for v in exp['amap'].values()) >= 2 and signs == {1, -1}
     if kind == 'annih':
         return case['n'] >= 3
+    if kind == 'derived':
+        return len(exp['t2']['strings']) != len(exp['t3']['strings']) and min(case['ka'], case['kb']) >= 1
     if kind == 'opstr':
         return any(c >= 2 for c, _ in exp['maps'])
     if kind == 'large':
@@ -489,8 +536,8 @@ def sample(case):
             c[key] = c[key][:3] + ['... %d more' % (len(c[key]) - 3)]
     return c
 
-THEOREM_FILES = ['P_C05', 'P_C05_gen', 'P_C05_ast']
-THEOREM_NEEDS = {'P_C05_gen': ['Equiv_bits', 'Equiv_binom'], 'P_C05_ast': ['Equiv_cexpr']}
+THEOREM_FILES = ['P_C05', 'P_C05_gen', 'P_C05_ast', 'P_C05_zmat']
+THEOREM_NEEDS = {'P_C05_gen': ['Equiv_bits', 'Equiv_binom'], 'P_C05_ast': ['Equiv_cexpr'], 'P_C05_zmat': ['Equiv_zmat']}
 RULE = ('exhaustive over (norb, nele) tables up to the tier bound, every (i,j); cross-sector maps for every '
         'dn; operator-string maps for all index lists of length <= 2 plus random ones up to 4; 1/2-electron '
         'sectors at norb in {31..34,36,40,48,62..64} (three electrons at 34, 40); the inline helpers of bitstring.h compiled into a '
